@@ -521,8 +521,16 @@ def dependent_rules(ctx, module):
     summary = {}
     for dep, why in sorted(deps.items()):
         dmod = importlib.import_module(dep)
+        scope = "reached"
+        if isinstance(why, (tuple, list)):
+            why, scope = why[0], why[1]
         roots = own - anchor_files(dep)
-        view, nf = _reachable_view(ctx.fb, roots)
+        if scope == "all":
+            # the lower component's object is shared with this component's clients (readers lock the collector's Epoch,
+            # a thread-local id is returned by a destructor no call reaches): every instance present in these facts counts
+            view, nf = ctx.fb, sum(len(tu.fns) for tu in ctx.fb.tus)
+        else:
+            view, nf = _reachable_view(ctx.fb, roots)
         sub = _SubCtx(dep, ctx.tier)
         sub.fb = view
         sub.units = ctx.units
@@ -560,7 +568,7 @@ def dependent_rules(ctx, module):
                 o["msg"] = "[clause of %s on the instantiation %s uses: %s] %s" % (dep, ctx.prop, why, o.get("msg", ""))
                 ctx.violations.append(o)
             n += 1
-        summary[dep] = {"functions_reachable": nf, "obligations": n, "status": status, "why": why}
+        summary[dep] = {"scope": scope, "functions_reachable": nf, "obligations": n, "status": status, "why": why}
         if status != "evaluated":
             ctx.note("dependent rules of %s: %s (after %d obligations)" % (dep, status, n))
     ctx.extra_cov["dependent_clauses"] = summary
